@@ -208,7 +208,11 @@ def disptex(matrix, title,  nd = 3, pdims = True, h=""):
     for i in range(shape[0]):
         #strr+= "\\hline\n"
         for j in range(shape[1]):
-            strr+= str(round(matrix[i, j], nd))
+            try:
+                strr+= str(round(matrix[i, j], nd))
+            except TypeError:
+                #Entries that cannot be rounded (numpy booleans) are shown as they are
+                strr+= str(matrix[i, j])
             if j != shape[1] - 1:
                 strr+=" & "
                 continue
